@@ -351,6 +351,42 @@ static void run_op(const std::vector<std::string> &w, const std::string &, out &
         if (cap > cnt) o.tag("sparecap");
         return;
     }
+    if (op == "reuse" && w.size() == 3)
+    {
+        // repeated calls on ONE set of objects (same input buffer address, same length, same out buffer,
+        // same std::string objects) with changed contents between the calls: a result cached by address
+        // or length, or a table built from the first input, shows in the second answers
+        bytes A = unhex(w[1]), B = unhex(w[2]);
+        if (A.size() != B.size()) { o.result = "bad-op"; return; }
+        size_t n = A.size();
+        exact_buf buf(A), outb(2 * n), back(n);
+        std::string text, b64, b64u;
+        std::string (*sdec)(std::string const &) = igris::hexascii_decode;
+        std::string r[2][7];
+        for (int round = 0; round < 2; round++)
+        {
+            const bytes &m = round ? B : A;
+            if (n) memcpy(buf.p, m.data(), n);
+            hexascii_encode(buf.p, (int)n, outb.p);
+            r[round][0] = std::string((char *)outb.p, 2 * n);
+            r[round][1] = igris::hexascii_encode(buf.p, n);
+            r[round][2] = igris::base64_encode(buf.p, n);
+            r[round][3] = igris::base64url_encode(buf.p, n);
+            text.assign(r[round][1]); // same object, same size: same character array
+            b64.assign(r[round][2]);
+            b64u.assign(r[round][3]);
+            hexascii_decode(outb.p, (int)(2 * n), back.p);
+            r[round][4] = std::string((char *)back.p, n) + (sdec ? sdec(text) : std::string("?"));
+            r[round][5] = igris::base64_decode(b64);
+            r[round][6] = igris::base64url_decode(b64u);
+            if (r[round][0] != ref_hex(m) || r[round][1] != ref_hex(m)) o.fail("reuse: hex encoders, call " + std::to_string(round + 1));
+            if (r[round][2] != ref_b64_encode(m, STD_ALPHA) || r[round][3] != ref_b64_encode(m, URL_ALPHA)) o.fail("reuse: base64 encoders, call " + std::to_string(round + 1) + " on the same buffer");
+            if (r[round][4] != str(m) + str(m) || r[round][5] != str(m) || r[round][6] != str(m)) o.fail("reuse: decoders, call " + std::to_string(round + 1) + " on the same objects: decode(encode(x)) != x");
+        }
+        o.result = hex(r[1][0]) + " " + hex(r[1][1]) + " " + hex(r[1][2]) + " " + hex(r[1][3]) + " " + hex(r[1][4]) + " " + hex(r[1][5]) + " " + hex(r[1][6]);
+        o.tag("reuse");
+        return;
+    }
     if (op == "hdeci" && w.size() == 3)
     {
         // in place: hexascii_decode(buf, size, buf).  The pair is read before its byte is stored and the
@@ -627,6 +663,7 @@ static const char *const PREMAIN_BATTERY[] = {
     "bdec 5a6d3976596d4679", "bdec 5a6d39765967", "bdec 5a6d39765967203d", "bdec 2b2f2b2f", "bdec 2d5f383d", "bdec 5a673d3d", "bdec 5a6d383d",
     "buenc -", "buenc fbff", "buenc 00", "buenc fbefbefbefbe", "buenc 666f6f6261",
     "budec 2d5f383d", "budec 2b2f383d", "budec 41413d3d", "budec 5a6d39765967",
+    "reuse 00017f80ff3efb fbefbe01020304", "reuse 666f6f 626172",
     "hlong 1000 7 3", "blong std 1000 7 3", "blong url 1001 13 250", "blong std 1001 251 128", "blong url 1002 5 0",
 };
 static const size_t PREMAIN_N = sizeof PREMAIN_BATTERY / sizeof PREMAIN_BATTERY[0];
@@ -771,6 +808,10 @@ static void gen_round3(rng &r, bool th)
             int dsize = rep == 0 ? len : (int)r.range(-3, len);
             printf("hdeci %d %s\n", dsize, hex(t).c_str());
         }
+    // the same objects reused with changed contents
+    for (int len = 0; len <= 48; len++)
+        for (int rep = 0; rep < (th ? 6 : 2); rep++)
+            printf("reuse %s %s\n", hex(rnd_bytes(r, (size_t)len)).c_str(), hex(rnd_bytes(r, (size_t)len)).c_str());
     // long inputs and the sizes around 2^8 and 2^16 (digest results); >= 300 KiB once per routine
     for (size_t n : {255u, 256u, 257u, 65535u, 65536u, 65537u})
     {
